@@ -14,6 +14,10 @@ mod c15;
 mod c16;
 mod c17;
 mod c18;
+mod e2;
+mod e2props;
+mod e2run;
+mod sched;
 mod dom;
 mod mprops;
 mod refm;
@@ -251,6 +255,9 @@ fn main() {
     if args.len() < 3 {
         machinery_failure("usage: e1 <property> <quick|thorough> | e1 replay <property> <file>");
     }
+    if args[1] == "e2-child" {
+        e2run::child(&args[2], &args[3], args[4].parse().unwrap_or(0), args[5].parse().unwrap_or(1));
+    }
     if args[1] == "c18-adversary" {
         c18::adversary_child(args[2].parse().unwrap_or(0));
     }
@@ -267,6 +274,7 @@ fn main() {
             "C11" => replay_generic("C11", &args[3], &c11::replay_case),
             "C14" => replay_generic("C14", &args[3], &c14::replay_case),
             "C17" => replay_generic("C17", &args[3], &c17::replay_case),
+            "C06" | "C07" | "C12" | "C13" | "C19" | "C20" => e2run::replay(&args[2], &args[3]),
             "C18" => replay_generic("C18", &args[3], &c18::replay_case),
             other => machinery_failure(&format!("no replay for {other}")),
         }
@@ -287,6 +295,7 @@ fn main() {
         "C14" => c14::run(&args[2]),
         "C15" => c15::run(&args[2]),
         "C17" => c17::run(&args[2]),
+        "C06" | "C07" | "C12" | "C13" | "C19" | "C20" => e2run::parent(&args[1], &args[2]),
         "C18" => c18::run(&args[2]),
         "C16" => {
             let p = std::env::var("VERIF_UNICODE_REF")
